@@ -105,6 +105,11 @@ FAMILIES = {
                                InitRefs=[(), ((1, 2),)]),
                      invs=['WellFormedRagged', 'Model_Ragged', 'FailedAppendExact', 'TypeOK'],
                      need=['RA_Call', 'RA_RollbackV', 'RA_IWrite']),
+    # operations inside ra.open_arrays() contexts / with a suspended iter_arrays generator holding the maps
+    'ctx': dict(over=dict(Ops=['append', 'truncate', 'mode', 'reopen', 'ctx'], RowIds=[1], MaxSub=4, MaxItems=1, MaxItemLen=1,
+                          TruncArgs=[0, 1, -1], InitRefs=[(), ((1,), ())], InitModes=['r+']),
+                invs=['WellFormedRagged', 'Model_Ragged', 'Readme_Current', 'TypeOK'],
+                need=['EnterCtx', 'ExitCtx', 'RA_VWrite', 'RA_IWrite', 'RT_IOsTruncate', 'TR_Write']),
     'readme': dict(over=dict(RowIds=[1], MaxSub=8, MaxItemLen=1, MaxItems=2, TruncArgs=[0, 5, 6, -1, -2],
                              Ops=['append', 'truncate'], InitRefs=[(), ((1,), (), (1,), (1,), ())]),
                    invs=['WellFormedRagged', 'Model_Ragged', 'Readme_Current', 'TypeOK'],
@@ -145,7 +150,7 @@ def run_family(run, prop, tier, seed, family):
     select = None
     if not thorough and mg.nmacros() > 2500:
         # quick tier: stratified sample, at most `cap` macro-edges per edge class
-        cap = 8
+        cap = 3 if family == 'ctx' else 8
         allm = list(mg.all_macros())
         rnd.shuffle(allm)
         seen = {}
@@ -162,7 +167,7 @@ def run_family(run, prop, tier, seed, family):
     n1 = report(run, prop, mg, macros, res, 'edge')
     run.add('edge_replays', n1)
     npaths, plen = (1200, 25) if thorough else (120, 10)
-    if family in ('overflow',):
+    if family in ('overflow', 'ctx'):
         npaths //= 3
     paths = []
     for i in range(npaths):
